@@ -222,12 +222,15 @@ fn variant_unmarshal(enum_name: syn::Ident, variant: &syn::Variant) -> TokenStre
                 )*
                 expected_sig.push(')');
                 if sig.eq(&expected_sig) {
-                    ctx.align_to(8)?;
-                    let this = #enum_name::#name{
-                        #(
-                            #field_names: <#field_types2 as ::rustbus::Unmarshal>::unmarshal(ctx)?,
-                        )*
-                    };
+                    // a struct nested in a variant
+                    let this = ctx.in_container(2, |ctx| {
+                        ctx.align_to(8)?;
+                        Ok(#enum_name::#name{
+                            #(
+                                #field_names: <#field_types2 as ::rustbus::Unmarshal>::unmarshal(ctx)?,
+                            )*
+                        })
+                    })?;
                     return Ok(this);
                 }
             }
@@ -243,12 +246,15 @@ fn variant_unmarshal(enum_name: syn::Ident, variant: &syn::Variant) -> TokenStre
                 )*
                 expected_sig.push(')');
                 if sig.eq(&expected_sig) {
-                    ctx.align_to(8)?;
-                    let this = #enum_name::#name(
-                        #(
-                            <#field_types2 as ::rustbus::Unmarshal>::unmarshal(ctx)?,
-                        )*
-                    );
+                    // a struct nested in a variant
+                    let this = ctx.in_container(2, |ctx| {
+                        ctx.align_to(8)?;
+                        Ok(#enum_name::#name(
+                            #(
+                                <#field_types2 as ::rustbus::Unmarshal>::unmarshal(ctx)?,
+                            )*
+                        ))
+                    })?;
                     return Ok(this);
                 }
             }
@@ -261,9 +267,12 @@ fn variant_unmarshal(enum_name: syn::Ident, variant: &syn::Variant) -> TokenStre
                 <#ty as ::rustbus::Signature>::sig_str(&mut sig_str);
 
                 if sig.eq(sig_str.as_ref()) {
-                    let this = #enum_name::#name(
-                        <#ty as ::rustbus::Unmarshal>::unmarshal(ctx)?,
-                    );
+                    // the value is nested in this variant
+                    let this = ctx.in_container(1, |ctx| {
+                        Ok(#enum_name::#name(
+                            <#ty as ::rustbus::Unmarshal>::unmarshal(ctx)?,
+                        ))
+                    })?;
                     return Ok(this);
                 }
             }
